@@ -293,7 +293,7 @@ func (w *World) BuildTx(op TxOp, v TxView, seq int) (*BuiltTx, error) {
 		bt.Authentic = false
 	case "wrongkey":
 		st.Signature.PublicKey = w.Signer(op.From + 1).Public()
-		bt.Authentic = false
+		bt.Authentic = st.Signature.PublicKey.Equal(signer.Public())
 	case "otherchain", "ctx", "nochain", "truncctx":
 		// Re-sign outside the oasis signature package with a different domain separation.
 		ctxs := map[string]string{
